@@ -131,11 +131,10 @@ def parseScore (raw : Bytes) : Dec ScoreCursor :=
     | none => .error .hex
     | some [v, g0, g1, g2, g3, s0, s1, s2, s3, o0, o1, o2, o3, d0, d1, d2, d3, r0, r1, r2, r3] =>
       if v.toNat ≠ cursorVersion then .error .version
-      else
-        let returned := ofBe32 r0 r1 r2 r3
-        if returned > maxCursorAdvance then .error .advance
-        else .ok { version := v.toNat, generation := ofBe32 g0 g1 g2 g3, scoreBits := ofBe32 s0 s1 s2 s3,
-                   segmentOrd := ofBe32 o0 o1 o2 o3, docId := ofBe32 d0 d1 d2 d3, returned := returned }
+      else if ofBe32 r0 r1 r2 r3 > maxCursorAdvance then .error .advance
+      else .ok { version := v.toNat, generation := ofBe32 g0 g1 g2 g3, scoreBits := ofBe32 s0 s1 s2 s3,
+                 segmentOrd := ofBe32 o0 o1 o2 o3, docId := ofBe32 d0 d1 d2 d3,
+                 returned := ofBe32 r0 r1 r2 r3 }
     | some _ => .error .length
 
 /-- what a request knows when it decodes a cursor -/
